@@ -307,6 +307,8 @@ class Elf(BinFormat):
         data = self.__file.read(section.sh_size)
         # and parse it into Sym objects:
         l = section.sh_entsize
+        if len(data) < section.sh_size:
+            raise ElfError("symbol table truncated")
         if (section.sh_size % l) != 0:
             raise ElfError("symbol table size mismatch")
         else:
@@ -334,6 +336,8 @@ class Elf(BinFormat):
         self.__file.seek(section.sh_offset)
         data = self.__file.read(section.sh_size)
         l = section.sh_entsize
+        if len(data) < section.sh_size:
+            raise ElfError("relocation table truncated")
         if (section.sh_size % l) != 0:
             raise ElfError("relocation table size mismatch")
         else:
@@ -360,6 +364,8 @@ class Elf(BinFormat):
         data = self.__file.read(section.sh_size)
         # and parse it into Dyn objects:
         l = section.sh_entsize
+        if len(data) < section.sh_size:
+            raise ElfError("dynamic linking truncated")
         if (section.sh_size % l) != 0:
             raise ElfError("dynamic linking size mismatch")
         else:
